@@ -181,7 +181,23 @@ def run_case(ctx, g, rng):
             ask(c, k, q)  # before the operation (monitored against the current records)
         cs = rng.random() < 0.6
         merge = rng.random() < 0.6
-        if rng.random() < 0.5:
+        if rng.random() < 0.1 and c.records:
+            # the caller extends a Record object of its own that the converter already holds (add_record keeps the
+            # caller's object) and registers that very object again, merging: all its names must resolve afterwards
+            own = rng.choice(c.records)
+            extra_p, extra_u = f"zzown{len(hist)}", f"http://zz.own/{len(hist)}/"
+            if rng.random() < 0.5:
+                own.prefix_synonyms.append(extra_p)
+            else:
+                own.uri_prefix_synonyms.append(extra_u)
+            new = spec.rec_of(own)
+            cur = list(spec.snapshot(c))
+            cs, merge = True, True
+            o = call(c.add_record, own, merge=True)
+            op = "add_record(same object again)"
+            pool += [("p", extra_p), ("u", extra_u + "1")]
+            S.counters["wl:step:same-object-registered-again"] += 1
+        elif rng.random() < 0.5:
             o = call(c.add_record, gen.mk_record(api, new), case_sensitive=cs, merge=merge)
             op = "add_record"
         else:
